@@ -4,9 +4,11 @@ func init() {
 	register("C18", &propInfo{
 		Explanation: "Structural clauses of the surface parameterisation code (model3d/parameterization.go): AXIS no purely X-derived quantity is added to, compared with or put in the slot of a purely Y-derived one in the atlas packing and boundary code.",
 		Trusted:     []string{"go/types, go/ssa"},
-		Fixtures:    []string{"s", "n"},
+		Fixtures:    []string{"s", "n", "u"},
 		Run:         runC18,
 		SelfTest: []Mutation{
+			{Name: "p-norm of the raw coordinates", File: "model3d/parameterization.go",
+				Old: "math.Pow(math.Pow(abs.X, p)+math.Pow(abs.Y, p), 1/p)", New: "math.Pow(math.Pow(v.X, p)+math.Pow(v.Y, p), 1/p)", Rule: "POWABS", Expect: "PNormBoundary"},
 			{Name: "transposed Floater system", File: "model3d/parameterization.go",
 				Old: "matrix.Set(i, j, weight)", New: "matrix.Set(j, i, weight)", Rule: "ROWIDX", Expect: "floater97"},
 			{Name: "tall split starts at the x midpoint", File: "model3d/parameterization.go",
@@ -26,6 +28,9 @@ func runC18(c *Ctx) {
 	axisSlotsOnly = true
 	c.runAxisTags("AXIS", c.libPkgs()[:1], ff)
 	axisSlotsOnly = false
+	// distances and squared distances are not mixed (nearest-triangle search, stretch)
+	c.runUnits("UNIT", c.unitPkgs("u"), ff)
+	c.floor("UNIT", 0)
 	c.runRowIdx("ROWIDX", c.libPkgs()[:1], baseIn("parameterization.go"))
 	c.floor("ROWIDX", 0)
 	// (floor 0: extracting the scan into a predicate function removes the shape
@@ -35,4 +40,7 @@ func runC18(c *Ctx) {
 	c.runSplit2("SPLIT2", append(c.libPkgs(), c.fixturePkg("n")), nil)
 	c.floor("SPLIT2", 0)
 	c.floor("AXIS", 4)
+	// the p-norm boundary raises absolute coordinates to the power p
+	c.runPowAbs("POWABS", append(c.libPkgs()[:1:1], c.fixturePkg("n")), nil)
+	c.floor("POWABS", 0)
 }
